@@ -1,6 +1,6 @@
 (* family 12: CFDP fixed PDU header (PduHeader, PduConfig, header_len_from_raw). *)
 From Coq Require Import ZArith List Bool.
-From SP Require Import Base.Result Base.Bytes Run.Marshal Model.PduHeader Spec.PduHeaderSpec.
+From SP Require Import Base.Result Base.Bytes Run.Marshal Model.PduHeader Model.PduHeaderOps Spec.PduHeaderSpec.
 Import ListNotations.
 Open Scope Z_scope.
 
@@ -41,6 +41,56 @@ Definition hdr_raw_of_fields (ids flags hd : list Z) : PduHeader :=
 
 Definition hdr_conf_raw (ids flags : list Z) : PduConfig := h_conf (hdr_raw_of_fields ids flags []).
 
+(* ---- operation histories (ops 1212 / 1213) ----
+   an operation on a case line: code :: arguments (extra trailing integers choose among
+   equivalent Python spellings in the adapter and are ignored here) *)
+Definition hdr_op_of (l : list Z) : res hdr_op :=
+  match l with
+  | 1 :: v :: _ => Ok (HSetType v)
+  | 2 :: v :: _ => Ok (HSetMeta v)
+  | 3 :: v :: _ => Ok (HSetDlen v)
+  | 4 :: sv :: sl :: dv :: dl :: _ => Ok (HSetIds sv sl dv dl)
+  | 5 :: v :: w :: _ => Ok (HSetSeq v w)
+  | 6 :: v :: _ => Ok (HSetLarge v)
+  | 7 :: v :: _ => Ok (HSetCrc v)
+  | 8 :: v :: _ => Ok (HSetMode v)
+  | 9 :: v :: _ => Ok (HSetDir v)
+  | 10 :: v :: _ => Ok (HSetSegctrl v)
+  | 11 :: w :: v :: _ => Ok (HFieldInt w v)
+  | 12 :: w :: _ :: b => Ok (HFieldBytes w b)
+  | 13 :: w :: v :: l' :: _ => Ok (HConfField w v l')
+  | 14 :: r => do c <- conf_of_args (firstn 6 r) (firstn 5 (skipn 6 r)); Ok (HReplaceConf c)
+  | 15 :: _ => Ok HPack
+  | 16 :: _ => Ok HConfLen
+  | _ => Err EOther
+  end.
+
+(* the class of a raised exception as the harness compares it inside a result line *)
+Definition canon_err (e : err) : Z := if is_value_error e then 1 else err_code e.
+
+(* every view of a header on one line: type, metadata flag, data-field length, the three byte
+   fields (value, width), the five flags, header_len, packet_len *)
+Definition hdr_state (h : PduHeader) : list Z :=
+  [h_type h; h_meta h; h_dlen h] ++ conf_ids (h_conf h) ++ conf_flags (h_conf h) ++
+  [hdr_header_len h; hdr_packet_len h].
+
+(* after every operation: [0] or [1; class], all views, the byte fields' octets, what the call
+   returned; at the end the caller's PduConfig object *)
+Fixpoint hw_run (w : hworld) (ops : list (list Z)) : args :=
+  match ops with
+  | [] => [conf_ids (hw_caller_view w); conf_flags (hw_caller_view w)]
+  | l :: r =>
+      match (do o <- hdr_op_of l; hw_step w o) with
+      | Ok (w', out) => [0] :: hdr_state (hw_hdr w') :: hdr_id_octets (hw_hdr w') :: out :: hw_run w' r
+      | Err e => [1; canon_err e] :: hdr_state (hw_hdr w) :: hdr_id_octets (hw_hdr w) :: [] :: hw_run w r
+      end
+  end.
+
+(* the PduConfig a history starts from: [0] the explicit one of the case line,
+   [1] PduConfig.default(), [2] PduConfig.empty() *)
+Definition conf_of_kind (k : Z) (ids flags : list Z) : res PduConfig :=
+  if k =? 1 then Ok conf_default else if k =? 2 then Ok conf_empty else conf_of_args ids flags.
+
 Definition run_hdr (op : Z) (a : args) : args :=
   match op with
   (* PduHeader(...) : fields, header_len, packet_len *)
@@ -76,6 +126,21 @@ Definition run_hdr (op : Z) (a : args) : args :=
               (do h1 <- hdr_of_args (lst 0 a) (lst 1 a) (lst 2 a);
                do h2 <- hdr_of_args (lst 3 a) (lst 4 a) (lst 5 a);
                Ok (b2z (hdr_eqb h1 h2)))
+  (* c = PduConfig(...) | default() | empty(); h = PduHeader(type, meta, dlen, c); the views of h
+     and of the caller's c right after construction; then a history of operations *)
+  | 1212 => match (do c <- conf_of_kind (int 3 0 a) (lst 0 a) (lst 1 a);
+                   do h <- hdr_new (int 2 0 a) (int 2 1 a) (int 2 2 a) c; Ok (c, h)) with
+            | Ok (c, h) => [0] :: hdr_state h :: hdr_id_octets h :: conf_ids (h_conf h) :: conf_flags (h_conf h)
+                           :: hw_run (hw_of_hdr h) (skipn 4 a)
+            | Err e => ret_err e
+            end
+  (* h = PduHeader.unpack(data) (data given as bytes, or as a bytearray that is overwritten
+     afterwards: [1] = the header did not change); then a history of operations *)
+  | 1213 => match hdr_unpack (lst 0 a) with
+            | Ok h => [0] :: [1] :: hdr_state h :: hdr_id_octets h :: hw_run (hw_of_hdr h) (skipn 2 a)
+                      ++ [hdr_state h; hdr_id_octets h]        (* the same octets decoded once more at the end *)
+            | Err e => ret_err e
+            end
   (* Spec side (independent oracle): the layout of a field tuple *)
   | 1250 => [[0]; hdr_layout (hdr_raw_of_fields (lst 0 a) (lst 1 a) (lst 2 a))]
   | _ => [[1; 97]]
